@@ -1,11 +1,12 @@
 (** C10 — reset() returns the resampler to its freshly-constructed behaviour.
-    Statements only; proofs in Proofs/ResetP.v.  They hold in every arithmetic (in particular in
+    Statements only; proofs in Proofs/ResetP.v, Proofs/ShapeFftP.v.  They hold in every arithmetic (in particular in
     the bit-exact binary64/binary32 instance): only the shape of the state matters.  The reset and
     constructor formulas are regenerated from source, so "reset writes the constructor's value
     into every mutable field" is re-checked against the code on every run.                        *)
 From Coq Require Import ZArith List Bool.
 From Rubato.Model Require Import Num Base Async Fft Resamplers Driver.
-From Rubato.Proofs Require Import ResetP.
+From Rubato.Gen Require Import SynchroGen.
+From Rubato.Proofs Require Import ResetP ShapeFftP.
 Import ListNotations.
 
 Section C10.
@@ -45,9 +46,19 @@ Theorem C10_reset_after_pib_async : forall unit_fn r wi wo m r' c o,
   match r with RFftIn _ | RFftOut _ | RFftInOut _ => False | _ => True end ->
   mask_inv r -> r_pib unit_fn r wi wo m = Ok (r', c, o) -> r_reset r' = r_reset r /\ mask_inv r'.
 Proof. exact reset_after_pib_async. Qed.
+
+(** ... and any successful process_into_buffer of a synchronous resampler, for ANY spectral core: the call returns overlap and
+    internal buffers of exactly the lengths it received (resample_unit itself checks the length of the tail it keeps), and
+    changes only saved_frames / frames_needed of the control record, which reset() overwrites.  [fft_wf] says: as many
+    overlap buffers, internal buffers and mask entries as channels, fft_size_out >= 1 (established by the constructors:
+    FftInR.xi_ctor, FftOutR.xo_ctor, FftInOutP.xio_ctor; preserved by every call, below). *)
+Theorem C10_reset_after_pib_fft : forall unit_fn r wi wo m r' c o,
+  fft_wf r -> r_pib unit_fn r wi wo m = Ok (r', c, o) -> r_reset r' = r_reset r /\ fft_wf r'.
+Proof. exact reset_after_pib_fft. Qed.
 End C10.
 
 Print Assumptions C10_reset_fresh_sinc_out.
 Print Assumptions C10_reset_fresh_fft_out.
 Print Assumptions C10_reset_after_set_rel.
 Print Assumptions C10_reset_after_pib_async.
+Print Assumptions C10_reset_after_pib_fft.
